@@ -7,10 +7,11 @@ Local Open Scope Z_scope.
 (* ares_dns_parse on ANY byte string (of a size a C object can have) with ANY parse flags: the
    model (header, question, every RR decoder incl. multistring / OPT / SVCB loops, RDLENGTH
    reconciliation) never performs an out-of-bounds read or any other modelled UB, and none of its
-   loop fuels is ever exhausted (safe = not UB, not OutOfFuel) *)
-Theorem C02_parse_no_ub : forall bytes flags,
-  Z.of_nat (length bytes) < 2 ^ 64 -> safe (fun _ => True) (dns_parse bytes flags).
-Proof. exact dns_parse_safe. Qed.
+   loop fuels is ever exhausted (safe = not UB, not OutOfFuel); holds for the pinned tree and
+   for the tree with fixes/C04-*.patch applied (variant) *)
+Theorem C02_parse_no_ub : forall variant bytes flags,
+  Z.of_nat (length bytes) < 2 ^ 64 -> safe (fun _ => True) (dns_parse_v variant bytes flags).
+Proof. exact dns_parse_v_safe. Qed.
 Print Assumptions C02_parse_no_ub.
 
 (* ares_dns_name_parse at any offset of any block, any fuel >= S(data_len), both modes:
